@@ -461,6 +461,13 @@ func (r *run) end(a *attempt, resp *tikvrpc.Response, err error) (*tikvrpc.Respo
 func (r *run) serve(ctx context.Context, a *attempt, req *tikvrpc.Request, timeout time.Duration) (*tikvrpc.Response, error) {
 	sc := r.sc
 	if r.isWarm(a) {
+		// fault-free, except that a store that is really down refuses the connection for the earlier call as well
+		// (with forwarding that call then succeeds through a proxy, which the region remembers)
+		if sc.DownOverride {
+			if idx := r.storeIndexByAddr(a.Addr); idx >= 0 && r.livenessNow(idx) == "unreachable" {
+				return r.end(a, nil, errors.New("sendsim: connection refused (store down)"))
+			}
+		}
 		switch req.Type {
 		case tikvrpc.CmdGet:
 			return r.end(a, &tikvrpc.Response{Resp: &kvrpcpb.GetResponse{Value: []byte("value-of-the-warm-up-call")}}, nil)
